@@ -81,7 +81,7 @@ def run_case(case, rng):
     pol = G.random_policy(rng, sp, prefer_zero_reward=(sp.gamma == 1.0 and rng.random() < 0.7))
     if corridor:
         pol = {s_: {sp.acts[s_][0]: 1.0} for s_ in sp.states}
-    pres = rng.choice(["same", "permuted", "to_tabular"])
+    pres = rng.choice(["same", "permuted", "to_tabular", "subclass_to_tabular"])
     case.family = fam
     case.params = dict(rep=rep, gamma=sp.gamma, n=len(sp.states), presentation=pres)
 
@@ -109,6 +109,22 @@ def run_case(case, rng):
         data = np.array([[pim[arr.si[s], arr.ai[a]] for a in A2] for s in S2])
         tp = case.call("TabularPolicy.from_state_action_lists", TabularPolicy.from_state_action_lists,
                        state_list=S2, action_list=A2, data=data)
+    elif pres == "subclass_to_tabular":
+        # a policy written by SUBCLASSING TabularPolicy and overriding the public action_dist (the stored table is only a
+        # starting point: here the first available action everywhere); what it says is evaluated via to_tabular
+        class Overriding(TabularPolicy):
+            def action_dist(self_, s_):
+                return DictDistribution(pol[s_])
+        stored = np.zeros((len(S), len(A)))
+        for s_ in S:
+            stored[arr.si[s_], arr.ai[sp.acts[s_][0]]] = 1.0
+        op = case.call("TabularPolicy-subclass", Overriding.from_state_action_lists, state_list=S, action_list=A, data=stored)
+        tp = case.FAIL if op is case.FAIL else case.call("Policy.to_tabular(subclass)", op.to_tabular, S, A)
+        case.count("to_tabular_calls")
+        if tp is not case.FAIL:
+            got = Rd.mat(tp, S, A)
+            case.check(np.array_equal(got, pim), "to_tabular-differs-from-policy",
+                       lambda: f"subclass overriding action_dist: {got.tolist()} vs {pim.tolist()}")
     else:
         fp = FunctionalPolicy(lambda s: DictDistribution(pol[s]))
         S2, A2 = S[:], A[:]
@@ -120,7 +136,7 @@ def run_case(case, rng):
             got = Rd.mat(tp, S, A)
             case.check(np.array_equal(got, pim), "to_tabular-differs-from-policy",
                        lambda: f"{got.tolist()} vs {pim.tolist()}")
-    if pres != "to_tabular":
+    if pres not in ("to_tabular", "subclass_to_tabular"):
         case.count("to_tabular_calls", 0)
     if tp is case.FAIL:
         return
